@@ -140,6 +140,10 @@ class Engine(InterpMixin, AttrMixin):
             if isinstance(v, SymStr):
                 return self.branch(wrap(z3.Length(v.term) > 0))
             raise Unsupported(f"truth of {v!r}")
+        if isinstance(v, SymOpt):
+            return self.truth(self.concretize(v))
+        if isinstance(v, SymEnum):
+            return True
         if isinstance(v, SymSeq):
             return self.branch(v.length > 0) if is_sym(v.length) else v.length > 0
         if hasattr(v, "sym_truth"):
@@ -153,6 +157,22 @@ class Engine(InterpMixin, AttrMixin):
                 return self.truth(self.call(BoundMethod(f, v), [], {}) != 0)
             return True
         return bool(v)
+
+    def concretize(self, v):
+        """Fork until a symbolic enum member / optional is concrete."""
+        while isinstance(v, (SymEnum, SymOpt)):
+            if isinstance(v, SymOpt):
+                v = None if self.branch(wrap(v.is_none)) else v.value
+                continue
+            members = list(v.cls.members.values())
+            self.assume(wrap(z3.And(v.idx >= 0, v.idx < len(members))))
+            chosen = members[-1]
+            for i, m in enumerate(members[:-1]):
+                if self.branch(wrap(v.idx == i)):
+                    chosen = m
+                    break
+            v = chosen
+        return v
 
     def event(self, *ev):
         self.events.append(ev)
@@ -354,6 +374,8 @@ class Engine(InterpMixin, AttrMixin):
             if c is None:
                 raise self.pyraise(TypeError, "object not callable")
             return self.call(BoundMethod(c, f), args, kwargs)
+        if isinstance(f, (SymEnum, SymOpt)):
+            return self.call(self.concretize(f), args, kwargs)
         if isinstance(f, EnumMember):
             c, _ = f.cls.lookup("__call__")
             if c is None:
